@@ -1,8 +1,8 @@
 #!/bin/bash
 # tools/confirm_seed.sh <seed-id> <property> : confirm a sub-agent's seeded change independently in a fresh scratch worktree, then keep it under /verif/seeded/<seed-id>/
-# usage: confirm_seed2.sh <seed-id e.g. C01b> <property> <dir under /tmp/seeded2>
+# usage: confirm_seed2.sh <seed-id e.g. C01b> <property> <dir under /tmp/seeded${ROUND:-2}>
 ID=$1; PROP=$2; SRCID=$3
-SRC=/tmp/seeded2/$SRCID
+SRC=/tmp/seeded${ROUND:-2}/$SRCID
 WT=/tmp/confirm_wt_$ID
 set -u
 git -C /repo worktree remove --force $WT 2>/dev/null
